@@ -49,8 +49,9 @@ def main():
         out[sid] = res
         m = json.load(open(os.path.join(d, 'meta.json')))
         m['regression_quick'] = {'own_property': res[p]['exit'], 'own_property_classes': res[p]['classes']}
-        m['also_caught_by'] = [q for q in res if q != p and res[q]['exit'] == 1]
-        m['related_checks_silent'] = [q for q in res if q != p and res[q]['exit'] == 0]
+        if not a.own_only:   # an own-property-only regression keeps what an earlier full run recorded
+            m['also_caught_by'] = [q for q in res if q != p and res[q]['exit'] == 1]
+            m['related_checks_silent'] = [q for q in res if q != p and res[q]['exit'] == 0]
         json.dump(m, open(os.path.join(d, 'meta.json'), 'w'), indent=1)
         print(sid, {q: (v['exit'], v['classes']) for q, v in res.items()}, flush=True)
     sh(['git', '-C', '/repo', 'worktree', 'remove', '--force', WT])
